@@ -1,7 +1,9 @@
 #![allow(dead_code)]
 mod alloc_count;
 mod batch;
+mod corpus;
 mod drive;
+mod embed;
 mod explore;
 mod fw;
 mod props;
